@@ -51,13 +51,16 @@ def check_items(lay, items, ignore_comments, fold=False):
         except lexer.LexError as e:
             return "item-text", "statement %d: %s" % (n + 1, e)
         want = ex.tokens
-        if fold:
+        if fold == "all":
+            got = [(k, t.lower() if k in ("id", "num", "dot") else t) for k, t in got]
+            want = [(k, t.lower() if k in ("id", "num", "dot") else t) for k, t in want]
+        elif fold:
             got, want = fold_case(got), fold_case(want)
         if got != want:
             return "item-text", "statement %d text: got %r, model %r" % (n + 1, it.line, " ".join(t for _, t in ex.tokens))
         if it.label != ex.label:
             return "item-label", "statement %d (%r): label %r, model %r" % (n + 1, it.line, it.label, ex.label)
-        if (it.name or None) != ex.name:
+        if (it.name or None) != ex.name and not (fold == "all" and it.name and ex.name and it.name.lower() == ex.name.lower()):
             return "item-name", "statement %d (%r): construct name %r, model %r" % (n + 1, it.line, it.name, ex.name)
         if tuple(it.span) != (ex.first, ex.last):
             return "item-span", "statement %d (%r): span %r, model %r" % (n + 1, it.line, tuple(it.span), (ex.first, ex.last))
